@@ -25,13 +25,15 @@ Case ops (model side: lean/Driver/C02.lean, digests computed with the Lean SHA-2
                                 constructors refuse; outside the property's domain): both sides must raise — the
                                 exception family (ValueError from the stripped copy's constructors in the model,
                                 Model.Ident.ctorValid) is reported in evidence but not compared
+  c02.hist.tx|blk <obj> <variant> <obsA> <obsB>   two observers (serialize forms, GetHash, GetTxid, hash(), ==, weight)
+                                applied one after the other to ONE object, every ordered pair       vs  stateless Model
 Each generated transaction is paired with alternative witness assignments (none, all-empty stacks, one non-empty
 stack, all non-empty, altered content); the model's txid being provably witness-independent, agreement on every
 member of the family is agreement on the relation.
 """
 from ..framework import Prop, mk, exc_family, ensure_repo_on_path
 from .. import txfmt
-from .c01 import Gen, has_witness, DEFAULT_TX, shrink_tx
+from .c01 import Gen, has_witness, DEFAULT_TX, shrink_tx, hist_domain, hist_impl
 
 VARIANTS = ('i', 'm', 'fm', 'fi', 'di', 'dm')
 
@@ -171,6 +173,11 @@ class C02(Prop):
         n_blk = (4000 if big else 120) // nshards + 1
         if shard == 0:
             yield mk('c02.ids', DEFAULT_TX, 'i', tag='default')
+        # objects with history: identifiers / equality / hash after (and before) each other observer, one object
+        obs = ('ser', 'ser0', 'hash', 'txid', 'pyh', 'eq', 'weight')
+        for j, (op, text, v, a, b) in enumerate(hist_domain(self, tier, 'c02', obs, tuple(o for o in obs if o != 'txid'))):
+            if j % nshards == shard:
+                yield mk(op, text, v, a, b, tag='hist:%s:%s>%s' % (v, a, b))
         for _ in range(n_tx):
             t = g.tx(rng.choice(('small', 'small', 'small', 'len', 'count', 'rand')))
             if sum(len(i[2]) for i in t['vin']) + sum(len(o[1]) for o in t['vout']) > 200000:
@@ -234,7 +241,7 @@ class C02(Prop):
             yield mk('c02.objpair', 'tx', texts[0], rng.choice(texts), tag='pair-family')
             # a sibling differing in exactly one non-witness field
             t3 = dict(t)
-            k = rng.randrange(4)
+            k = rng.randrange(5)
             if k == 0:
                 t3['ver'] = t['ver'] ^ 1
             elif k == 1:
@@ -242,8 +249,11 @@ class C02(Prop):
             elif k == 2:
                 h, n, s_, q = t['vin'][-1]
                 t3['vin'] = t['vin'][:-1] + [(h, n, s_, q ^ 1)]
-            else:
+            elif k == 3:
                 t3['vout'] = t['vout'] + [(0, b'')]
+            else:
+                h, n, s_, q = t['vin'][0]
+                t3['vin'] = [(h, n ^ 1, s_, q)] + t['vin'][1:]
             yield mk('c02.eq', texts[0], txfmt.show_tx(t3), rng.choice(VARIANTS), rng.choice(VARIANTS), tag='eq-sibling')
             yield mk('c02.objpair', 'tx', texts[0], txfmt.show_tx(t3), tag='pair-sibling')
             yield mk('c02.objpair', 'tx', txfmt.show_tx(t3), texts[0], tag='pair-sibling')
@@ -328,6 +338,8 @@ class C02(Prop):
             if not all(flags):
                 return 'inconsistent:%d:%s' % (eq, ''.join(str(int(f)) for f in flags))
             return '1' if eq else '0'
+        if op.startswith('c02.hist.'):
+            return hist_impl(self.C, op, a)
         if op == 'c02.obj':
             return self.obj_case(a[0], a[1])
         if op == 'c02.objpair':
@@ -458,11 +470,34 @@ class C02(Prop):
             m.nValue, m.scriptPubKey = int(v), CScript(bytes.fromhex(sc))
         elif kind == 'tx':
             mb = txfmt.to_tx(txfmt.parse_tx(text), True)
-            m.vin[:] = mb.vin
-            m.vout[:] = mb.vout
+            if len(m.vin) == len(mb.vin):       # edit the existing input objects and their outpoints in place
+                for i, j in zip(m.vin, mb.vin):
+                    i.prevout.hash, i.prevout.n = j.prevout.hash, j.prevout.n
+                    i.scriptSig, i.nSequence = j.scriptSig, j.nSequence
+            else:
+                m.vin[:] = mb.vin
+            if len(m.vout) == len(mb.vout):
+                for o, p_ in zip(m.vout, mb.vout):
+                    o.nValue, o.scriptPubKey = p_.nValue, p_.scriptPubKey
+            else:
+                m.vout[:] = mb.vout
             m.nLockTime, m.nVersion, m.wit = mb.nLockTime, mb.nVersion, mb.wit
         else:
             raise ValueError(kind)
+
+    def immutable_copies(self, kind, m):
+        C = self.C
+        if kind == 'outpoint':
+            return [('from_outpoint', C.COutPoint.from_outpoint(m))]
+        if kind == 'txin':
+            return [('from_txin', C.CTxIn.from_txin(m)), ('tx(vin=[m]).vin[0]', C.CTransaction([m], []).vin[0]),
+                    ('CTxIn(from_outpoint)', C.CTxIn(C.COutPoint.from_outpoint(m.prevout), m.scriptSig, m.nSequence))]
+        if kind == 'txout':
+            return [('from_txout', C.CTxOut.from_txout(m))]
+        if kind == 'tx':
+            return [('from_tx', C.CTransaction.from_tx(m)),
+                    ('ctor', C.CTransaction(m.vin, m.vout, m.nLockTime, m.nVersion, m.wit))]
+        return []
 
     def pair_case(self, kind, ta, tb):
         va, vb = self.variants(kind, ta), self.variants(kind, tb)
@@ -479,7 +514,17 @@ class C02(Prop):
             before = (m.GetHash(), hash(m), m == a0)
             if before != (ha, hash(a0), True):
                 return 'inconsistent:mutable-before-overwrite'
+            # immutable copies taken from the mutable object (identifiers read, i.e. cached) ...
+            copies = self.immutable_copies(kind, m)
+            for _, ic in copies:
+                ic.GetHash(), hash(ic)
             self.overwrite(kind, m, tb)
+            # ... keep the field values and identifiers they had, whatever happens to their source afterwards
+            for lc, ic in copies:
+                if ic.serialize() != a0.serialize():
+                    return 'inconsistent:copy-follows-source:' + lc
+                if ic.GetHash() != ha or hash(ic) != hash(a0) or self.relate(ic, a0, True):
+                    return 'inconsistent:copy-identifiers:' + lc
             if m.serialize() != b0.serialize():
                 return 'inconsistent:overwrite-serialize'
             if m.GetHash() != hb:
@@ -528,6 +573,8 @@ class C02(Prop):
         op, a = c['op'], c['args']
         if op in ('c02.obj', 'c02.objpair', 'c02.objcross', 'c02.pyhash'):
             return c.line
+        if op.startswith('c02.hist.'):
+            return '\t'.join([op, a[0], a[2], a[3]])
         if op == 'c02.eq':
             return op + '\t' + a[0] + '\t' + a[1]
         return op + '\t' + a[0]
